@@ -11,6 +11,7 @@ import (
 	"sort"
 	"strings"
 
+	"github.com/cosmos/cosmos-sdk/types/bech32"
 	"github.com/ethereum/go-ethereum/crypto"
 
 	"github.com/circlefin/noble-cctp/x/cctp/types"
@@ -1077,11 +1078,30 @@ func scnAttesters(g *Gen, budget int, arg string) {
 
 func scnFaults(g *Gen, budget int, arg string) {
 	plans := []string{"-", "1", "01", "10", "11", "001", "011", "101", "111", "000"}
+	first := true
 	for g.nOps < budget {
 		g.initStandard(2, 1)
 		owner := g.role("owner")
 		// a domain with a zero messenger, for the late failure "recipient must be nonzero"
 		g.tx("AddRemoteTokenMessenger", newKV().set("from", hs(owner)).set("domain", "6").set("address", hx(make([]byte, 32))))
+		if first {
+			first = false
+			// GENUINE dependency failures (no injected fault): the depositor cannot pay although the module account itself
+			// holds more than enough for the burn that follows; an inbound burn of a token whose local denom the
+			// fiat-token-factory does not mint
+			g.fund(types.ModuleAddress, mintDenom, "5000000000000")
+			for _, amount := range []string{"1000000000001", "1000000000000", "2000000000000", "4999999999999"} {
+				for _, withCaller := range []bool{false, true} {
+					ty, kv := g.opDeposit(g.acct[4], amount, withCaller)
+					g.tx(ty, kv)
+					g.q("NextAvailableNonce")
+				}
+			}
+			g.tx("LinkTokenPair", newKV().set("from", hs(g.role("tc"))).set("domain", "0").set("token", hx(token(13))).set("localToken", hs("other")))
+			for _, amt := range []int64{0, 1, 50} {
+				g.recvBurn(g.acct[1], 0, g.freshNonce(0), token(13), amt, attOpts{})
+			}
+		}
 		for i := 0; i < 50 && g.nOps < budget; i++ {
 			from := g.anyAcct()
 			plan := plans[g.pick(len(plans))]
@@ -1645,6 +1665,47 @@ func (g *Gen) replacePreamble() {
 	}
 }
 
+// replaceLongSubmitters: account addresses need not be 20 bytes long (the SDK admits 1..255).  The handlers encode the
+// submitter as copy(dst[12:], addr) -- the FIRST 20 bytes of a longer address, a shorter one followed by zeros -- so
+// "the submitter is the sender" is decided on that encoding: 12 zero bytes followed by A is NOT account A.
+func (g *Gen) replaceLongSubmitters() {
+	enc := func(b []byte) string {
+		s, _ := bech32.ConvertAndEncode(bech32Prefix, b)
+		return s
+	}
+	for sub := 0; sub < 2; sub++ {
+		raw := g.acctRaw[sub]
+		subs := []string{
+			enc(pad32(raw)),                                 // 0^12 ‖ A : another account
+			enc(append(append([]byte{}, raw...), g.randBytes(12)...)), // A ‖ 12 more bytes: encodes like A
+			enc(append(make([]byte, 11), raw...)),           // 31 bytes
+			enc(raw[:19]),                                   // A without its last byte
+			enc(append([]byte{0}, raw...)),                  // 21 bytes
+			enc(raw[12:]),                                   // the last 8 bytes only
+		}
+		for k, from := range subs {
+			for _, burnShaped := range []bool{false, true} {
+				sender := pad32(raw)
+				body := g.randBytes(7)
+				if burnShaped {
+					sender = types.PaddedModuleAddress
+					body = buildBurnBody(0, crypto.Keccak256([]byte(mintDenom)), g.rand32(), big.NewInt(int64(50+k)), pad32(raw))
+				}
+				orig := buildMessage(0, 4, g.domain(), uint64(500+k), sender, g.rand32(), g.rand32(), body)
+				att := g.attest(orig, attOpts{})
+				ecr := ecrEntries(orig, att)
+				if burnShaped {
+					g.tx("ReplaceDepositForBurn", newKV().set("from", hs(from)).set("message", hx(orig)).set("attestation", hx(att)).
+						set("newCaller", hx(g.rand32())).set("newMintRecipient", hx(g.rand32())).set("ecr", ecr))
+				} else {
+					g.tx("ReplaceMessage", newKV().set("from", hs(from)).set("message", hx(orig)).set("attestation", hx(att)).
+						set("newBody", hx(g.randBytes(9))).set("newCaller", hx(g.rand32())).set("ecr", ecr))
+				}
+			}
+		}
+	}
+}
+
 func scnReplace(g *Gen, budget int, arg string) {
 	first := true
 	for g.nOps < budget {
@@ -1654,6 +1715,7 @@ func scnReplace(g *Gen, budget int, arg string) {
 		}
 		if first {
 			g.replacePreamble()
+			g.replaceLongSubmitters()
 			first = false
 		}
 		for k := 0; k < 60 && g.nOps < budget; k++ {
